@@ -11,7 +11,7 @@ from ..cfg import CFG
 from ..core import AnalysisError, const_value
 from ..defuse import DefUse, Terms, show, walk_term
 from ..defuse import key as tkey
-from ..tutil import (base_of, bound_args, flattened_of, callee_of, lin, norm_calls,
+from ..tutil import (base_of, bound_args, bound_margs, flattened_of, callee_of, lin, norm_calls,
                      np_call, strip_conv, strip_materialise, subst_params)
 
 EXPLANATION = (
@@ -583,7 +583,8 @@ def _predict(ctx, f):
                 ca.update(dict(cc[0][3]))
                 data_t = ca.get(uc.params[0])
                 size_t = ca.get(uc.params[1])
-                rsize = dict(rd[4]).get("chunk_size")
+                rsize = (bound_margs(prog, rd) or dict(rd[4])).get(
+                    "chunk_size")
                 ok_f = (data_t == ("zipelem", 1, (("param", p_psms),
                                                   ("param", p_idx)))
                         and rd[1] == ("zipelem", 0, (("param", p_psms),
